@@ -56,6 +56,25 @@ fn verify_case(run: &mut Run, jumbf: &[u8], kind: &str) -> Option<usize> {
     Some(run.case(format!("C21 verify claims={line}"), imp))
 }
 
+/// `verify_store` with the asset (model: `verifyStoreAB`): the model is told, per hard binding of
+/// the binding manifest, whether the asset content is unchanged (`unchanged`, known by
+/// construction of the case); compared: ordered log incl. hard-binding statuses, `Ok`/`Err`, and
+/// the label of the manifest whose hard binding was checked
+fn verifya_case(run: &mut Run, jumbf: &[u8], fmt: &str, asset: &[u8], unchanged: bool, kind: &str) -> Option<usize> {
+    let store = load_store(jumbf).ok()?;
+    let line = abs_store(&store);
+    if !protocol_safe(&line) {
+        return None;
+    }
+    let active = store.provenance_claim()?;
+    let nb = c2pa::verif_hooks::c19::get_hash_binding_manifest(&store, active).and_then(|l| store.get_claim(&l).map(|c| c.hash_assertions().len())).unwrap_or(0);
+    let oks = if nb == 0 { "-".to_string() } else { vec![if unchanged { "1" } else { "0" }; nb].join(",") };
+    let (imp, _log) = impl_verify_asset(&store, fmt, asset);
+    run.count(&format!("verifya_{kind}"));
+    run.nontrivial(format!("verifya {kind} {unchanged} {}", imp.rsplit(' ').next().map(|b| if b == "B=-" { "nobinding" } else { "bound" }).unwrap_or("")));
+    Some(run.case(format!("C21 verifya claims={line} oks={oks}"), imp))
+}
+
 /// first offset that is certainly asset content: past the end of the embedded manifest store
 /// (found by locating the last bytes of the JUMBF in the asset) plus a margin for the
 /// container's own trailer of that box/chunk/segment (CRC, padding)
@@ -98,20 +117,65 @@ fn content_mutations(run: &mut Run, rng: &mut Rng, idx: usize, fmt: &str, asset:
         len_hi = 2 * len / 3;
     }
     let len = len_hi;
-    for k in 0..n {
+    // bit flips (k < n), then length-changing mutations: one byte appended, the last byte cut,
+    // one byte inserted into the content, one content byte deleted
+    for k in 0..n + 4 {
         let pos = if k == 0 { len - 1 - rng.below(((len - start) as u64).min(40)) as usize } else { start + rng.below((len - start) as u64) as usize };
         let mut a2 = asset.to_vec();
-        a2[pos] ^= 1 << rng.below(8);
+        let how = match k.checked_sub(n) {
+            None => {
+                a2[pos] ^= 1 << rng.below(8);
+                "bitflip"
+            }
+            Some(0) => {
+                a2.push(rng.below(256) as u8);
+                "append"
+            }
+            Some(1) => {
+                a2.pop();
+                "truncate"
+            }
+            Some(2) => {
+                a2.insert(pos, rng.below(256) as u8);
+                "insert"
+            }
+            _ => {
+                a2.remove(pos);
+                "delete"
+            }
+        };
         let r = match sidecar {
             Some(j) => read_sidecar(j, fmt, &a2),
             None => read_asset(fmt, &a2),
         };
-        run.count("content_mutation");
+        run.count(&format!("content_mutation_{how}"));
         if r.ok() {
-            run.fail(idx, "content-change-valid", format!("{what} ({fmt}): content byte {pos} of {len} (content starts at {start}) changed after the update manifest was added, reader says {}", r.state));
+            let class = if what.contains("prerec") { "content-change-valid-prerecorded" } else { "content-change-valid" };
+            run.fail(idx, class, format!("{what} ({fmt}): {how} at {pos} of {len} (content starts at {start}, asset {} -> {} bytes) after the update manifest was added, reader says {}", asset.len(), a2.len(), r.state));
         } else {
-            run.nontrivial(format!("mutation {what} {fmt} {k}"));
+            run.nontrivial(format!("mutation {how} {what} {fmt} {k}"));
         }
+        // the same mutated asset through `verify_store` itself, against the model's asset step
+        // (bit flips and appended bytes keep the container parseable)
+        if k == 0 || how == "append" {
+            let jum = match sidecar {
+                Some(j) => Some(j.to_vec()),
+                None => jumbf_of(fmt, &a2).ok(),
+            };
+            if let Some(j) = jum {
+                // a sidecar store has no position in the asset: the Reader validates it against
+                // the stream as is; `verify_store` does the same
+                verifya_case(run, &j, fmt, &a2, false, &format!("{how}_{}", if sidecar.is_some() { "sidecar" } else { "embedded" }));
+            }
+        }
+    }
+    // control: the unchanged asset
+    let jum = match sidecar {
+        Some(j) => Some(j.to_vec()),
+        None => jumbf_of(fmt, asset).ok(),
+    };
+    if let Some(j) = jum {
+        verifya_case(run, &j, fmt, asset, true, &format!("unchanged_{}", if sidecar.is_some() { "sidecar" } else { "embedded" }));
     }
 }
 
@@ -234,7 +298,10 @@ fn variants(pj: &[u8], qj: Option<&[u8]>, parent_label: &str, tag: u32) -> Vec<V
         Variant { name: "component_only".into(), craft: Craft { ingredients: vec![(pj.to_vec(), "c".into())], inception: "none".into(), actions: vec![("c2pa.published".into(), None)], ..base(7) }, legal: false },
         Variant { name: "input_only".into(), craft: Craft { ingredients: vec![(pj.to_vec(), "i".into())], inception: "none".into(), actions: vec![("c2pa.published".into(), None)], ..base(8) }, legal: false },
         Variant { name: "two_parents_same".into(), craft: Craft { ingredients: vec![(pj.to_vec(), "p".into()), (pj.to_vec(), "p".into())], ..base(9) }, legal: false },
+        // the validator's thumbnail rule is `count > 1` (the signer refuses any): both sides of the boundary
         Variant { name: "thumbnail_one".into(), craft: Craft { thumbnails: 1, ..base(11) }, legal: true },
+        Variant { name: "thumbnail_two".into(), craft: Craft { thumbnails: 2, ..base(13) }, legal: false },
+        Variant { name: "thumbnail_three".into(), craft: Craft { thumbnails: 3, actions: vec![("c2pa.published".into(), None)], ..base(14) }, legal: false },
     ];
     // (actions that other rules of verify_actions also reject — a second created/opened, placed
     // without ingredients — are left out: those rules are not part of this model)
@@ -268,6 +335,13 @@ fn variants(pj: &[u8], qj: Option<&[u8]>, parent_label: &str, tag: u32) -> Vec<V
         c.own_hashes = vec!["boxes".into(), "bmff.v3".into()];
         v.push(Variant { name: "own_hard_binding:data+boxes+bmff.v3".into(), craft: c, legal: false });
     }
+    // labels of hard bindings the SDK has no assertion type for (`hash_assertions()` does not
+    // return them): collection data hash, multi-part data hash. The rule is by label.
+    for (k, hk) in ["collection", "data.part"].iter().enumerate() {
+        let mut c = base(64 + k as u32);
+        c.own_hashes = vec![hk.to_string()];
+        v.push(Variant { name: format!("own_hard_binding:{hk}"), craft: c, legal: false });
+    }
     if let Some(qj) = qj {
         v.push(Variant { name: "two_parents_distinct".into(), craft: Craft { ingredients: vec![(pj.to_vec(), "p".into()), (qj.to_vec(), "p".into())], ..base(12) }, legal: false });
     }
@@ -280,8 +354,35 @@ fn crafted_updates(run: &mut Run, rng: &mut Rng, fmt: &str, parent_asset: &[u8],
     let parent_label = read_asset(fmt, parent_asset).active.unwrap_or_default();
     // the base manifest label (the one holding the notes) is the first manifest of the store
     let note_owner = load_store(&pj).ok().and_then(|s| s.claims().first().map(|c| c.label().to_string())).unwrap_or(parent_label.clone());
-    for v in variants(&pj, qj.as_deref(), &note_owner, 0xC21_0000 + rng.below(0xF000) as u32 * 128) {
-        if only_hash && !(v.name.starts_with("own_hard_binding") || v.name == "ok_plain") {
+    let tag0 = 0xC21_0000 + rng.below(0xF000) as u32 * 128;
+    let mut vs = variants(&pj, qj.as_deref(), &note_owner, tag0);
+    // a legal update manifest whose own ingredient assertion pre-records, for every hard binding of
+    // the binding (base) manifest, exactly the mismatch status a later content change will log
+    // (`ValidationResults::from_store` filters logged statuses against ingredient assertions)
+    if let Ok(ps) = load_store(&pj) {
+        let mut pre = vec![];
+        for (m, ls) in manifest_assertion_labels(&ps) {
+            for l in ls {
+                let code = if l.starts_with("c2pa.hash.data") {
+                    "assertion.dataHash.mismatch"
+                } else if l.starts_with("c2pa.hash.bmff") {
+                    "assertion.bmffHash.mismatch"
+                } else if l.starts_with("c2pa.hash.boxes") {
+                    "assertion.boxesHash.mismatch"
+                } else {
+                    continue;
+                };
+                pre.push((code.to_string(), assertion_uri(&m, &l)));
+            }
+        }
+        vs.push(Variant {
+            name: "ok_plain_prerec".into(),
+            craft: Craft { label: urn(tag0 + 100), update: true, ingredients: vec![(pj.to_vec(), "p".into())], inception: "opened".into(), prerecorded: pre, ..Default::default() },
+            legal: true,
+        });
+    }
+    for v in vs {
+        if only_hash && !(v.name.starts_with("own_hard_binding") || v.name.starts_with("ok_plain")) {
             continue;
         }
         let vclass = match v.name.strip_prefix("own_hard_binding:") {
@@ -401,8 +502,10 @@ fn rebase_cases(run: &mut Run, rng: &mut Rng, n: usize) {
         };
         // only well-formed lists (sorted, disjoint, in bounds) reach the real hashing code
         let well = |v: &[(u64, u64)]| v.windows(2).all(|w| w[0].0 + w[0].1 <= w[1].0) && v.iter().all(|(s, l)| s + l <= total);
+        // the active claim is an update manifest (re-basing happens) or not (exclusions as they are)
+        let upd = !rng.chance(1, 6);
         let effective = match range {
-            Some((s, _)) if s == pre => {
+            Some((s, _)) if s == pre && upd => {
                 // what the code will use if it behaves like the candidate generator; only used to
                 // keep malformed lists away from the hashing code
                 let shrink_ok = m2 >= m || !later;
@@ -430,10 +533,10 @@ fn rebase_cases(run: &mut Run, rng: &mut Rng, n: usize) {
         let res = guarded(std::panic::AssertUnwindSafe(|| {
             let mut cur = Cursor::new(asset.clone());
             let mut log2 = StatusTracker::default();
-            let r = hk21::verify_hash_binding_with(&claim, "image/jpeg", &mut cur, Some(urn(0xB1E)), range, &mut log2, &ctx());
+            let r = hk21::verify_hash_binding_with(&claim, "image/jpeg", &mut cur, if upd { Some(urn(0xB1E)) } else { None }, range, &mut log2, &ctx());
             (r.is_ok(), log2)
         }));
-        let req = format!("C21 rebase excl={} range={} cand={} n={total}", rngs(&excl), range.map(|(s, l)| format!("{s}:{l}")).unwrap_or("-".into()), rngs(&cand));
+        let req = format!("C21 rebase excl={} range={} cand={} n={total} upd={}", rngs(&excl), range.map(|(s, l)| format!("{s}:{l}")).unwrap_or("-".into()), rngs(&cand), upd as u8);
         run.count("rebase");
         match res {
             Ok((_ok, l)) => {
@@ -443,6 +546,9 @@ fn rebase_cases(run: &mut Run, rng: &mut Rng, n: usize) {
                 let imp = if same { "same" } else { "diff" }.to_string();
                 if range.map(|r| r.0 == pre).unwrap_or(false) && m2 != m {
                     run.nontrivial(format!("rebase {req}"));
+                    if !upd {
+                        run.count("rebase_not_update_store_moved");
+                    }
                 }
                 run.case(req, imp);
             }
@@ -474,13 +580,55 @@ pub fn run(run: &mut Run, rng: &mut Rng) {
             // crafted variants on top of the base manifest and on top of an update manifest
             // BMFF in the quick tier: only the own-hard-binding variants (+ one legal control)
             let bmff = matches!(*fmt, "video/mp4" | "image/avif" | "image/heic");
-            crafted_updates(run, rng, fmt, &pair.0, None, &format!("base_{}", fmt.replace('/', "-")), thorough, bmff && !thorough);
+            let _ = bmff;
+            crafted_updates(run, rng, fmt, &pair.0, None, &format!("base_{}", fmt.replace('/', "-")), thorough, false);
             if *fmt == "image/jpeg" || thorough {
                 crafted_updates(run, rng, fmt, &pair.1, Some(&pair.0), &format!("onupdate_{}", fmt.replace('/', "-")), thorough, false);
             }
         }
     }
     let _ = jpeg_pair;
+    // a parent bound by a box hash (`c2pa.hash.boxes`): Builder update on top, crafted variants, mutations
+    for (fmt, file) in [("image/jpeg", "IMG_0003.jpg"), ("image/png", "libpng-test.png")].iter().take(if thorough { 2 } else { 1 }) {
+        let Ok(src) = std::fs::read(fixtures().join(file)) else { continue };
+        let d = definition("BX", fmt, vec![created()], &[("org.verif.n0".into(), marker("x", "0")), ("org.verif.n1".into(), marker("x", "1"))], None, None);
+        let Ok(a) = sign_with(box_hash_settings_json(), &d, None, fmt, &src, &[]) else {
+            run.notes.push(format!("{fmt}: box-hash base could not be signed"));
+            continue;
+        };
+        let is_box = jumbf_of(fmt, &a).ok().and_then(|j| load_store(&j).ok()).map(|s| manifest_assertion_labels(&s).iter().any(|(_, ls)| ls.iter().any(|l| l.starts_with("c2pa.hash.boxes")))).unwrap_or(false);
+        run.obligations.insert(format!("box-hash-parent-{}", fmt.replace('/', "-")), is_box);
+        if !is_box {
+            continue;
+        }
+        let ra = read_asset(fmt, &a);
+        if !ra.ok() {
+            let idx = run.reqs.len().saturating_sub(1);
+            run.fail(idx, "signed-asset-not-valid", format!("{fmt}: box-hash base reads {} {:?}", ra.state, ra.failures));
+            continue;
+        }
+        let du = definition("BXU", fmt, vec![serde_json::json!({"action": "c2pa.published"})], &[("org.verif.u".into(), marker("xu", "0"))], None, None);
+        match guarded(|| sign(&du, Some(BuilderIntent::Update), fmt, &a, &[])) {
+            Ok(Ok(u)) => {
+                run.count("builder_update_on_box_hash");
+                let idx = jumbf_of(fmt, &u).ok().and_then(|j| verify_case(run, &j, "builder_update_on_box_hash")).unwrap_or(run.reqs.len().saturating_sub(1));
+                let r = read_asset(fmt, &u);
+                if !r.ok() {
+                    run.fail(idx, "legal-update-not-valid", format!("{fmt}: update manifest on a box-hash parent reads {} {:?}", r.state, r.failures));
+                }
+                content_mutations(run, rng, idx, fmt, &u, None, "builder update on box-hash parent", if thorough { 8 } else { 3 });
+            }
+            Ok(Err(e)) => {
+                let idx = run.reqs.len().saturating_sub(1);
+                run.fail(idx, "legal-update-rejected", format!("{fmt}: update on a box-hash parent could not be signed: {}", err_class(&e)));
+            }
+            Err(p) => {
+                let idx = run.reqs.len().saturating_sub(1);
+                run.fail(idx, "panic", format!("{fmt}: update on box-hash parent: {p}"));
+            }
+        }
+        crafted_updates(run, rng, fmt, &a, None, &format!("boxbase_{}", fmt.replace('/', "-")), thorough, !thorough);
+    }
     rebase_cases(run, rng, if thorough { 6000 } else { 600 });
     run.obligations.insert("update-manifests-produced".into(), run.dist.keys().any(|k| k.starts_with("builder_update_l2")));
     run.obligations.insert("embedded-crafted-read".into(), run.dist.contains_key("embedded_crafted"));
